@@ -58,7 +58,7 @@ def step27 (st : St27) (line : String) : St27 × String :=
   let (op, impl) := splitBar line
   match toks op with
   | ["reset", m, t] =>
-    let ms := dedupMembers (parseMembers m)
+    let ms := (dedupMembers (parseMembers m)).map fun x => { x with topics := dedup x.topics }
     runRound { ms := ms, topics := (parseTopics t).1 } ms impl false
   | "next" :: _ =>
     runRound st (nextMembers st.ms st.lastPost (nextGen st.ms)) impl true
